@@ -26,6 +26,9 @@ func init() {
 			"(routing-payload-validated) a pushed routing table is applied only after every route was checked to have an owner (Partition.Owner panics on an empty list); " +
 			"(alloc-size-bounded) slice allocations in handler-reachable code take their size from constants or lengths of existing data, never from an unbounded request value; " +
 			"(subscriber-loop-exits-on-read-error) the detached subscriber loop ends when reading a command fails; " +
+			"(locks-released) every sync.Mutex/RWMutex taken in a function of the repository is released by a deferred unlock or on every path to every return (a lock wrapper that never unlocks is not judged); " +
+			"(ticker-period-positive) time.NewTicker/Tick periods are positive constants, configuration fields, or tested positive; " +
+			"(semaphore-released) a semaphore slot acquired in a background pass is released or handed to a worker that releases it on every way to the next iteration; " +
 			"(no-self-request-under-lock) the walks over the primary owners list that send an entry request while the fragment lock is held skip this member itself (its own handler would wait for that lock until the client times out; background eviction runs on previous owners too); " +
 			"(size-boundary-agreement) shared with C11: an entry exactly as large as a table is rejected instead of making Put spin. " +
 			"NOT decided: malformed payloads inside arguments (msgpack tables, encoded entries), memory exhaustion, by-design blocking (DM.LOCK deadline), socket-level byte streams (redcon's parser is outside the repository).",
@@ -48,6 +51,9 @@ func checkC16(r *core.Run) {
 	c16SubscriberLoop(r)
 	c16ParseErrorsChecked(r)
 	c16NoSelfRequestUnderLock(r)
+	c16LocksReleased(r)
+	c16TickerPeriod(r)
+	semaphoreReleased(r, "semaphore-released")
 	kvSizeBoundaryAgreement(r)
 }
 
